@@ -43,6 +43,17 @@ class _dumpable_iterator(Generic[T], list):
         raise NotImplementedError("Can't get the length of a _dumpable_iterator")
 
 
+def _polygon_to_geojson(polygon: shapely.Polygon) -> geojson.Polygon:
+    """
+    Convert a cell polygon to a ``geojson.Polygon`` without losing precision.
+    The geojson geometry constructors round all coordinates to six decimal places,
+    so the coordinates are assigned after construction instead.
+    """
+    geometry = geojson.Polygon()
+    geometry['coordinates'] = shapely.geometry.mapping(polygon)['coordinates']
+    return geometry
+
+
 def to_geojson(
     dataset: xarray.Dataset,
 ) -> geojson.FeatureCollection:
@@ -72,7 +83,7 @@ def to_geojson(
     :func:`.write_geojson`
     """
     return geojson.FeatureCollection(_dumpable_iterator(
-        geojson.Feature(geometry=polygon, properties={
+        geojson.Feature(geometry=_polygon_to_geojson(polygon), properties={
             'linear_index': i,
             'index': dataset.ems.wind_index(i),
         })
@@ -204,7 +215,8 @@ def write_wkt(
         The path where the geometry should be written to.
     """
     with open(path, 'w') as f:
-        f.write(shapely.to_wkt(_to_multipolygon(dataset)))
+        # The default is to round all coordinates to six decimal places
+        f.write(shapely.to_wkt(_to_multipolygon(dataset), rounding_precision=-1))
 
 
 def write_wkb(
